@@ -21,6 +21,7 @@ import json
 import os
 import re
 import shutil
+import time
 
 import yvlib
 from yvlib import hx, log
@@ -742,6 +743,111 @@ def fiber_programs():
     return progs
 
 
+USE_NAMES = ["RuntimeError", "clock", "type", "print", "Type", "Object", "Nil", "Bool", "Num", "Func", "BuiltIn", "Method",
+             "BuiltInMethod", "String", "Iter", "MapIter", "FilterIter", "Tuple", "Vec", "Range", "HashMap", "Fiber", "Error",
+             "AttributeError", "IndexError", "ImportError", "NameError", "TypeError", "ValueError", "StopIter"]   # = ModLang.use_names
+ERROR_CLASSES = ["Error", "RuntimeError", "AttributeError", "IndexError", "ImportError", "NameError", "TypeError", "ValueError"]
+
+
+def source_names():
+    """what the CURRENT sources install (translator): names of init_built_in_globals (with their module argument) + core.yl classes"""
+    try:
+        with open(os.path.join(yvlib.COQ, "gen", "manifest.json")) as fh:
+            c = json.load(fh).get("c14", {})
+    except Exception:
+        c = {}
+    inst = [n for n, _ in c.get("builtin_installs", [])]
+    return inst, c.get("core_class_names", []), c.get("builtin_misinstalled", [])
+
+
+def name_programs(names):
+    """directed family (mini-language): for every start-up name, modules at import depth 1 and 2, a module imported inside a
+    function and one imported inside a fiber use the name in their body and in an exported function; main uses it too"""
+    progs = []
+    for nm in names:
+        k = 3 + USE_NAMES.index(nm)
+        use = ("bi", k)
+        leaf = lambda t: ("ok", [("tag", t), use, ("fn", 0, [use]), ("tag", t + 1)])
+        progs.append([
+            ("ok", [use, ("imp", 1, 0), ("calla", 101, 0),
+                    ("fn", 1, [("imp", 3, 0), ("calla", 103, 0)]), ("call", 1),
+                    ("fn", 2, [("imp", 4, 0), ("calla", 104, 0)]), ("fib", 2, 2), ("fib", 1, 1), use]),
+            ("ok", [("tag", 10), use, ("fn", 0, [use]), ("imp", 2, 0), ("calla", 102, 0), ("tag", 11)]),
+            leaf(20), leaf(30), leaf(40)])
+    return progs
+
+
+def name_snippet(nm):
+    """yarel statements that USE a start-up name appropriately; must print the same lines in every module"""
+    if nm in ("clock", "type", "print"):
+        return 'print(%s); print(type(%s)); print(type(%s) == BuiltIn);' % (nm, nm, nm)
+    if nm == "StopIter":
+        return ('class CountDown_ { #[constructor] fn new(self, n) { self.n = n; } fn iter(self) { return self; } '
+                'fn next(self) { if self.n == 0 { return StopIter.new(); } self.n -= 1; return self.n + 1; } } '
+                'for v_ in CountDown_.new(2) { print(v_); } print(StopIter); print(type(StopIter.new()) == StopIter);')
+    if nm in ERROR_CLASSES:
+        return ('try { throw %s.new("ctx"); } catch e_ { print(type(e_) == %s); print(type(e_)); print(e_.context); } '
+                'print(%s);' % (nm, nm, nm))
+    if nm == "Fiber":
+        return 'print(Fiber); print(Fiber.new(|| 7).call());'
+    if nm == "Vec":
+        return 'print(Vec); print(type([1]) == Vec);'
+    if nm == "HashMap":
+        return 'print(HashMap); print(type({1: 2}) == HashMap);'
+    if nm == "Tuple":
+        return 'print(Tuple); print(type((1, 2)) == Tuple);'
+    if nm == "Range":
+        return 'print(Range); print(type(1..2) == Range);'
+    if nm == "String":
+        return 'print(String); print(type("s") == String); print(String.from(5));'
+    if nm == "Num":
+        return 'print(Num); print(type(1) == Num);'
+    if nm == "Bool":
+        return 'print(Bool); print(type(true) == Bool);'
+    if nm == "Nil":
+        return 'print(Nil); print(type(nil) == Nil);'
+    if nm == "Func":
+        return 'print(Func); print(type(|| 1) == Func);'
+    if nm == "BuiltIn":
+        return 'print(BuiltIn); print(type(print) == BuiltIn);'
+    return 'print(%s); print(type(%s));' % (nm, nm)
+
+
+def name_text_case(nm):
+    """main runs the snippet; so do an imported module (body + exported function, depth 1), a module it imports (depth 2), a module
+    imported inside a function and one imported inside a fiber.  Spec: every block prints what main's block prints."""
+    sn = name_snippet(nm)
+    leaf = 'print("--"); %s fn use_() { print("--"); %s }' % (sn, sn)
+    mods = {"na": leaf + ' import "nb"; nb.use_();', "nb": leaf, "nc": leaf, "nd": leaf}
+    main = ('print("--"); %s import "na"; na.use_(); fn f_() { import "nc"; nc.use_(); } f_(); '
+            'fn g_() { import "nd"; nd.use_(); return 0; } Fiber.new(|| g_()).call();' % sn)
+    return main, mods
+
+
+def check_name_text(ch, names):
+    """-> (cases, names whose snippet behaves in every module as in main)"""
+    ctx = ch.ctx
+    cases = [name_text_case(nm) for nm in names]
+    recs = yvlib.run_harness(ch.binary, [mods_line(m, mods) for m, mods in cases], case_timeout_ms=6000)
+    good = []
+    for nm, (main, mods), rec in zip(names, cases, recs):
+        blocks, cur = [], None
+        for l in [x for o in rec.output for x in o.split("\n")]:
+            if l == "--":
+                cur = []
+                blocks.append(cur)
+            elif cur is not None:
+                cur.append(re.sub(r"0x[0-9a-f]+", "ADDR", l))
+        ok = rec.result[0] == "ok" and len(blocks) == 9 and all(b == blocks[0] for b in blocks) and len(blocks[0]) > 0
+        if ok:
+            good.append(nm)
+        elif len([v for v in ctx.violations if v.get("name_family")]) < 3:
+            ctx.violation("the start-up name %s is not usable inside an imported module as it is in the main script" % nm,
+                          input=mods_line(main, mods), main=main, modules=mods, expected=[blocks[0] if blocks else "?"] * 9,
+                          actual=blocks + [str(rec.result)] + rec.messages[:2], name_family=nm)
+    return len(cases), good
+
+
 def all_edge_sets(nmods=4):
     pairs = [(a, b) for a in range(nmods) for b in range(1, nmods)]
     for mask in range(1 << len(pairs)):
@@ -755,10 +861,47 @@ def run(ctx):
     if ctx.replay_only:
         if "prog" in ctx.replay_only:
             ch.check([detuple(ctx.replay_only["prog"])], "replay", "replay")
+        elif "name_family" in ctx.replay_only:
+            check_name_text(ch, [ctx.replay_only["name_family"]])
+        else:
+            check_probes(ch)
         return
-    # 1. corpus + probes
+    # 1. directed families first: corpus, probes, fibers, every start-up name inside imported modules
     ncorpus = check_corpus(ch)
     nprobe = check_probes(ch)
+    fibs = fiber_programs()
+    ch.check(fibs, "fibers", "imports through nested fibers (fixed regression family)")
+    inst, core, misinst = source_names()
+    src_names = []
+    for n in inst + core:
+        if n not in src_names:
+            src_names.append(n)
+    covered = [n for n in src_names if n in USE_NAMES]
+    uncovered = [n for n in src_names if n not in USE_NAMES]
+    coq_names = yvlib.coq_eval(["YV:ModLang"], ['String.concat "," use_names'], tag="C14names_%d" % os.getpid())[0]
+    shutil.rmtree(os.path.join(yvlib.BUILD, "cases", "C14names_%d" % os.getpid()), ignore_errors=True)
+    if coq_names != ",".join(USE_NAMES):
+        ctx.broken.append("tools/props/C14.py USE_NAMES differs from ModLang.use_names")
+    if misinst:
+        ctx.broken.append("init_built_in_globals installs %s into a fixed module instead of its module argument" % misinst)
+    if uncovered:
+        ctx.notes.append("start-up names of the current sources not covered by the directed families: %s" % uncovered)
+    nprogs = name_programs(covered)
+    ch.check(nprogs, "names", "every start-up name used in imported modules (depth 1, 2, in a function, in a fiber)")
+    ntext, text_ok = check_name_text(ch, covered)
+    deadline = getattr(ctx, "deadline", None)
+    if deadline:
+        # search mode (an obligation is broken, no failing input yet): the directed families above ran first; now random and
+        # graph-shape programs in chunks until a failing input shows up or the time is used up
+        g = Gen(rng)
+        base = list(all_edge_sets(4))
+        nshapes = nrnd = 0
+        while time.time() < deadline and not ctx.violations:
+            chunk = [g.program() for _ in range(240)] + [shape_program(rng.choice(base), rng.random() < 0.5, ["ok"] * 4) for _ in range(80)]
+            ch.check(chunk, "search", "search")
+            nrnd += 240
+            nshapes += 80
+        return finish(ctx, ch, quick, ncorpus, nprobe, nshapes, nrnd, fibs, nprogs, covered, uncovered, ntext, text_ok)
     # 2. all import-graph shapes over <= 4 modules (thorough: all 4096 edge sets x {bare, try}; quick: a sample)
     shapes = []
     edge_sets = list(all_edge_sets(4))
@@ -776,12 +919,14 @@ def run(ctx):
         shapes.append(shape_program(es, rng.random() < 0.6, kinds))
     ch.check(shapes, "shapes", "graph shapes")
     nshapes = len(shapes)
-    fibs = fiber_programs()
-    ch.check(fibs, "fibers", "imports through nested fibers (fixed regression family)")
     # 3. random programs
     g = Gen(rng)
     rnd = [g.program() for _ in range(360 if quick else 4000)]
     ch.check(rnd, "random", "random")
+    return finish(ctx, ch, quick, ncorpus, nprobe, nshapes, len(rnd), fibs, nprogs, covered, uncovered, ntext, text_ok)
+
+
+def finish(ctx, ch, quick, ncorpus, nprobe, nshapes, nrnd, fibs, nprogs, covered, uncovered, ntext, text_ok):
     # shrink the first genuine violation
     fam = [v for v in ctx.violations if v.get("family")]
     for v in fam[:1]:
@@ -803,19 +948,23 @@ def run(ctx):
         ctx.notes.append("finding %s reproduced on %d case(s); recorded in notes/C14-findings.json (%s), not yet an open class of known_findings.json"
                          % (cls, n, "present" if cls in findings else "MISSING"))
     ctx.cov.update({
-        "evaluations": ch.evals + ncorpus + nprobe,
+        "evaluations": ch.evals + ncorpus + nprobe + ntext,
+        "startup_names_covered": covered, "startup_names_uncovered": uncovered,
+        "startup_name_programs": len(nprogs), "startup_name_text_cases": ntext, "startup_names_same_in_modules_as_in_main": text_ok,
         "distinct_nontrivial": len(ch.nontrivial),
         "rule": "module programs of the mini-language ModLang (<= 5 modules): (i) the canonical program of EVERY import graph over main + 3 modules "
                 "(4096 edge sets incl. self-loops, x {bare imports, imports in try}; sampled in quick) and of sampled graphs with missing / "
                 "uncompilable members; (ii) random programs (imports at top level / in functions called 0-2 times / in try / in blocks / under "
                 "aliases, same global x0 in several modules read through exported functions, attribute writes from outside, built-ins, throws, "
                 "calls through 1-3 nested fibers); (ii') a fixed family with an import at fiber depth 0-3 below a loading module body (cycle caught / "
-                "fatal, legitimate imports); "
+                "fatal, legitimate imports); (ii'') for EVERY start-up name (init_built_in_globals + core.yl, from the current sources) a "
+                "mini-language program and a yarel text case using it in module bodies and exported functions at import depth 1 and 2, in a "
+                "module imported inside a function and inside a fiber (error classes thrown and caught by class, StopIter through a user iterator); "
                 "(iii) tests/scripts/modules; non-trivial = the static import graph has a cycle or a diamond AND one global name is defined with "
                 "different values in two modules (distinct wire strings counted)",
         "samples": ch.samples,
         "traces_validated_against_impl": ch.evals,
-        "programs": ch.evals, "graph_shape_programs": nshapes, "fiber_regression_programs": len(fibs), "random_programs": len(rnd), "corpus_scripts": ncorpus,
+        "programs": ch.evals, "graph_shape_programs": nshapes, "fiber_regression_programs": len(fibs), "random_programs": nrnd, "corpus_scripts": ncorpus,
         "impl_vs_model_mismatches": ch.mism_m, "impl_vs_spec_mismatches": ch.mism_s,
         "main_only_name_cases": ch.flag_b, "reloaded_after_failed_import_cases": ch.reloaded, "harness_cases_retried_after_crash": ch.retried,
         "graph_shapes_exhaustive": (not quick),
@@ -837,9 +986,11 @@ def detuple(p):
 
 
 def search(ctx):
-    old = ctx.tier
-    ctx.tier = "thorough"
+    """an obligation / correspondence is broken and run() found no failing input: directed families first, then random
+    programs, for at most ~3.5 minutes"""
+    ctx.deadline = time.time() + 210
+    ctx.rng = yvlib.Rng(ctx.seed * 7919 + 14)
     try:
         run(ctx)
     finally:
-        ctx.tier = old
+        ctx.deadline = None
